@@ -8,7 +8,7 @@ use leptos_i18n_parser::parse_locales::parsed_value::ParsedValue;
 use leptos_i18n_parser::utils::Key;
 use leptos_i18n_parser::utils::KeyPath;
 use leptos_i18n_parser::utils::UnwrapAt;
-use proc_macro2::{Span, TokenStream};
+use proc_macro2::TokenStream;
 use quote::format_ident;
 use quote::quote;
 use quote::ToTokens;
@@ -265,9 +265,10 @@ impl Interpolation {
             })
             .collect::<Vec<_>>();
 
-        let builder_name = format!("{}_builder", key);
+        // built from the key as an identifier (`sign-in` -> `sign_in`, `r#type` -> `type`): its name is not always one.
+        let ident = format_ident!("{}_builder", key);
 
-        let ident = syn::Ident::new(&builder_name, Span::call_site());
+        let builder_name = ident.to_string();
 
         let dummy_ident = format_ident!("{}_dummy", ident);
 
